@@ -90,11 +90,25 @@ func VerifC19Batch() {
 		ka.Keys = append(ka.Keys, vItem{"p": vS(k)})
 		keys[tables[ti]] = ka
 	}
+	// an optional projection, written out or through a #name placeholder, the same for the batch and for
+	// the individual gets it is compared with
+	var proj *string
+	var names map[string]string
+	switch nd.Choice("projection", 3) {
+	case 1:
+		proj, names = aws.String("#v, p"), map[string]string{"#v": "v"}
+	case 2:
+		proj = aws.String("v, p")
+	}
+	for t, ka := range keys {
+		ka.ProjectionExpression, ka.ExpressionAttributeNames = proj, names
+		keys[t] = ka
+	}
 	absent := false
 	want := map[string][]vItem{}
 	for ti, t := range tables {
 		for _, k := range asked[ti] {
-			g, e := c.GetItem(vCtx, &dynamodb.GetItemInput{TableName: aws.String(t), Key: vItem{"p": vS(k)}})
+			g, e := c.GetItem(vCtx, &dynamodb.GetItemInput{TableName: aws.String(t), Key: vItem{"p": vS(k)}, ProjectionExpression: proj, ExpressionAttributeNames: names})
 			nd.Assert(e == nil, "C19-get-noerr")
 			if e == nil && len(g.Item) > 0 {
 				want[t] = append(want[t], g.Item)
@@ -103,18 +117,27 @@ func VerifC19Batch() {
 			}
 		}
 	}
-	if absent && nd.Known("C19-v2-batchget-absent-key-unprocessed") {
-		// known finding (pinned by TestPutAndGetBatchItem): keys without a stored item are reported in UnprocessedKeys
-		nd.Reach("end")
-		return
-	}
 	bg, err := c.BatchGetItem(vCtx, &dynamodb.BatchGetItemInput{RequestItems: keys})
 	nd.Assert(err == nil, "C19-batchget-noerr")
 	if err == nil {
 		if absent {
 			nd.Reach("absent-key")
 		}
-		nd.Assert(len(bg.UnprocessedKeys) == 0, "C19-batchget-absent-keys-are-not-unprocessed")
+		// known finding (pinned by TestPutAndGetBatchItem): keys without a stored item are reported in
+		// UnprocessedKeys; only that one obligation is waived, and only when a requested key is absent
+		if !(absent && nd.Known("C19-v2-batchget-absent-key-unprocessed")) {
+			nd.Assert(len(bg.UnprocessedKeys) == 0, "C19-batchget-absent-keys-are-not-unprocessed")
+		} else {
+			left := 0
+			for _, ka := range bg.UnprocessedKeys {
+				left += len(ka.Keys)
+			}
+			missing := 0
+			for ti, t := range tables {
+				missing += len(asked[ti]) - len(want[t])
+			}
+			nd.Assert(left == missing, "C19-batchget-only-absent-keys-are-unprocessed")
+		}
 		for _, t := range tables {
 			nd.Assert(vSameItems(bg.Responses[t], want[t]), "C19-batchget-equals-individual-gets")
 		}
